@@ -8,6 +8,8 @@ Decided statically (valid for every call history because nothing here depends on
      (data-flows into a stored field, an allocation size, the returned object or a branch between two normally
      continuing paths of the constructor - validation-only parameters do not count) is part of the key: it selects
      the slot or is compared with a stored copy in the guard that decides to rebuild.
+ (e) no alignment-dependent path: the region engine (E3) leaves the low address bits of every caller buffer unknown and
+     reports every branch / select decided by them (module API on its shape box, every kernel contract entry).
  (d) no alignment dependence: no alignment-sensitive load/store (IR alignment above the natural alignment of the
      scalar element) on memory provided by the caller through a data or scratch parameter, over every exported
      entry point and all dispatch candidates.
@@ -22,6 +24,7 @@ from .. import ctx
 from ..caches import analyse_cache_functions
 from ..report import Report
 from ..roles import roles_of
+from ..vals import Aborted, NeedEnum, Unsupported
 
 
 def rule_b(L, G, E, R, prefix=''):
@@ -224,6 +227,48 @@ def history_independence(L, R, cs, tier):
     return nseq
 
 
+def rule_e(L, R, tier):
+    """(e) no alignment-dependent path: in the region engine every caller buffer has unknown low address bits; a branch or
+    select whose condition depends on them (an `if ((uintptr_t)p & 31)` dispatch to another code path) is reported.  Module
+    API on the accelerated configuration over its whole shape box, and every kernel contract entry."""
+    from ..kernels import KERNELS, KBox
+    from ..sweep import sweep_api
+    n = 0
+    res = sweep_api(L, tier, ordered=False, want={'alignment-dependent-path'}, cpus=('accel',))
+    for (name, mod, cpu, al), rec in sorted(res.items(), key=str):
+        n += rec['runs']
+        for b in rec['broken'][:2]:
+            R.broke(b)
+        subj = '%s [%s,%s]' % (name, mod, cpu)
+        fds = [f for f in rec['findings'].get('alignment-dependent-path', []) if f]
+        if fds:
+            R.ob('no-alignment-dependent-path', subj, 'refuted', detail=fds[0]['detail'], key='%s:alignment-path' % name,
+                 loc=fds[0].get('loc'), witness=fds[0].get('shape'))
+        else:
+            R.ob('no-alignment-dependent-path', subj, 'holds', detail='%d instantiations' % rec['runs'], nontrivial=rec['runs'] > 0)
+    K = KERNELS(tier)
+    box = KBox(L)
+    for name, spec in sorted(K.items()):
+        bad = None
+        runs = 0
+        for sh in spec['dom']:
+            try:
+                r = box.instantiate(name, spec, sh, 'accel', expand=False)
+            except (Unsupported, NeedEnum, Aborted) as e:
+                continue        # domain / modelling questions belong to C11's sweep of the same entries
+            runs += 1
+            for e in r.events:
+                if e.kind == 'X' and e.note and e.note.startswith('alignment-dependent'):
+                    bad = bad or (sh, e.note, e.loc)
+        n += runs
+        if bad:
+            R.ob('no-alignment-dependent-path', 'kernel %s' % name, 'refuted', detail=bad[1], key='%s:alignment-path' % name,
+                 loc=bad[2], witness=bad[0])
+        else:
+            R.ob('no-alignment-dependent-path', 'kernel %s' % name, 'holds', detail='%d instantiations' % runs, nontrivial=runs > 0)
+    return n
+
+
 def run(tier):
     R = Report('C15', tier)
     L, G, E = ctx.lib(), ctx.cg(), ctx.effects()
@@ -242,6 +287,8 @@ def run(tier):
         if o['rule'] in ('table-function-writes-no-global', 'table-function-reads-no-mutable-global'):
             R.obligations.append(o)
             R.nontrivial.add((o['rule'], o['subject']))
+    ne = rule_e(L, R, tier)
+    R.floor('instantiations searched for alignment-dependent paths', ne, 3000)
     R.floor('cache (*_simple) functions', len(cs), 18)
     R.floor('mutable statics', na, 15)
     R.floor('caller-buffer parameters checked for alignment sensitivity', nd, 600)
